@@ -203,6 +203,24 @@ func (g *Engine) registerIntrinsics() {
 		e.guards = append(e.guards, guardRule{e.argStr(a[0]), e.argStr(a[1]), e.argStr(a[2])})
 		return nil
 	})
+	// vxConcretize(x, lo, hi): forks on the value of x in [lo, hi] and returns it as a constant
+	vx("vxConcretize", func(e *Exec, a []Value, pos token.Pos) Value {
+		x := a[0].(*Term)
+		if x.isConst() {
+			return x
+		}
+		lo, hi := e.argInt(a[1]), e.argInt(a[2])
+		for k := lo; k <= hi; k++ {
+			if e.branch(e.tb.Cmp(OEq, x, e.tb.K(64, uint64(k)))) {
+				return e.tb.K(64, uint64(k))
+			}
+		}
+		panic(pathEnd{"concretize-out-of-range"})
+	})
+	vx("vxGuardsOff", func(e *Exec, a []Value, pos token.Pos) Value {
+		e.guards = nil
+		return nil
+	})
 	vx("vxMutexHeld", func(e *Exec, a []Value, pos token.Pos) Value {
 		p := a[0].(*Ptr)
 		ms := e.mutex[mutexKey(p)]
